@@ -174,7 +174,7 @@ def run_many(jobs: list[tuple[dict, list[dict]]], gap: float, shared: bool = Fal
 # ------------------------------------------------------------------------------------------------
 MC_CFG = """SPECIFICATION Spec
 CONSTANTS Kind = "{kind}" Max = {max} LSize = {lsize} AW = {aw} DW = {dw} Keys = {keys} Durs = {durs}
-          Depth = {depth} Export = {export} WithReopen = {reopen} WithNone = {none}
+          Depth = {depth} Export = {export} WithReopen = {reopen} WithNone = {none} WithReput = {reput}
 INVARIANT InvWellFormed InvLenBounded InvPutBounds InvGetIsLastPut InvPresentWasPut Emit
 """
 
@@ -187,7 +187,8 @@ def enumerate_sequences(ctx: Ctx, cfg: dict, depth: int, durs: list[int], reopen
     wd = ctx.workdir(f"mc_{cfg['kind']}_{cfg['max']}_{cfg['lsize']}_{cfg['aw']}{cfg['dw']}")
     text = MC_CFG.format(kind=cfg["kind"], max=cfg["max"], lsize=cfg["lsize"], aw=cfg["aw"], dw=cfg["dw"],
                          keys=tla_set(cfg["keys"]), durs=tla_set(durs), depth=depth, export="TRUE",
-                         reopen="TRUE" if reopen else "FALSE", none="TRUE" if cfg.get("none") else "FALSE")
+                         reopen="TRUE" if reopen else "FALSE", none="TRUE" if cfg.get("none") else "FALSE",
+                         reput="TRUE" if cfg.get("reput") else "FALSE")
     r = run_tlc("MC_Cache", text, wd, workers=8, coverage=False, allow_violation=False)
     ctx.add_tlc(r, f"MC_Cache {cfg['kind']} max={cfg['max']} depth={depth}")
     seqs = {}
@@ -266,7 +267,10 @@ def random_ops(rng: random.Random, cfg: dict, n: int) -> list[dict]:
         k = rng.choice(cfg["keys"])
         if x < 0.5:
             v += 1
-            ops.append({"op": "put", "k": k, "v": 0 if rng.random() < 0.1 else v, "d": rng.choice(cfg["durs"])})   # 0 = None
+            r2 = rng.random()
+            lastv = next((o["v"] for o in reversed(ops) if o["op"] == "put" and o["k"] == k), None)
+            ops.append({"op": "put", "k": k, "d": rng.choice(cfg["durs"]),      # 0 = None; sometimes the key's last value again
+                        "v": 0 if r2 < 0.1 else lastv if (r2 < 0.25 and lastv is not None) else v})
         elif x < 0.85:
             ops.append({"op": "get", "k": k})
         elif x < 0.9:
@@ -299,7 +303,8 @@ def run(ctx: Ctx) -> None:
     configs: list[tuple[dict, int, list[int], bool]] = []
     for m in (1, 2, 3):
         # thorough: depth 6 (117 649 sequences) for max_size 2, depth 5 for the others (memory: every history is kept)
-        configs.append(({"kind": "lru", "max": m, "lsize": 0, "aw": 1, "dw": 1, "keys": keys3, "none": (m == 2) if quick else (m == 3)},
+        configs.append(({"kind": "lru", "max": m, "lsize": 0, "aw": 1, "dw": 1, "keys": keys3, "none": (m == 2) if quick else (m == 3),
+                         "reput": m == 1},
                         depth if (quick or m == 2) else depth - 1, [1], False))
     for m in (1, 2, 3):
         configs.append(({"kind": "hybrid", "max": m, "lsize": 0, "aw": 1, "dw": 1, "keys": keys3, "none": m == 2 and quick},
@@ -309,7 +314,7 @@ def run(ctx: Ctx) -> None:
         configs.append(({"kind": "hybrid", "max": 2, "lsize": 0, "aw": 3, "dw": 1, "keys": keys3, "none": True}, 3, [1, 2], False))
     configs.append(({"kind": "simple", "max": 1, "lsize": 0, "aw": 1, "dw": 1, "keys": keys3, "none": True}, depth, [1], False))
     for m, ls in ((1, 0), (2, 0), (2, 2), (2, 1)) if quick else ((1, 0), (2, 0), (3, 0), (2, 2), (2, 1), (3, 1)):
-        configs.append(({"kind": "disk", "max": m, "lsize": ls, "aw": 1, "dw": 1, "keys": keys3, "none": (m, ls) == (2, 2)},
+        configs.append(({"kind": "disk", "max": m, "lsize": ls, "aw": 1, "dw": 1, "keys": keys3, "none": (m, ls) == (2, 2), "reput": ls > 0},
                         3 if quick else 4, [1], True))
 
     all_traces: list[dict] = []
@@ -341,6 +346,24 @@ def run(ctx: Ctx) -> None:
                "aw": rng.choice([1, 3]), "dw": rng.choice([1, 3]), "keys": keys10, "durs": [1, 2, 5]}
         n = 12 if kind == "disk" else 40
         jobs.append(({k: v for k, v in cfg.items() if k != "durs"}, random_ops(rng, cfg, n)))
+    # directed: fill to capacity, put one resident key AGAIN (same value / new value / None), overflow, look at everything,
+    # reopen (disk), look again - for every kind
+    for kind in ("lru", "hybrid", "disk", "simple"):
+        for m in (2, 3):
+            for ls in ((0, 1, 2) if kind == "disk" else (0,)):
+                for again in ("same", "new", "none"):
+                    for which in range(m):
+                        keys = [f"k{i}" for i in range(m + 1)]
+                        cfg = {"kind": kind, "max": m, "lsize": ls, "aw": 1, "dw": 1, "keys": keys}
+                        ops = [{"op": "put", "k": keys[i], "v": i + 1, "d": 1 + i % 2} for i in range(m)]
+                        ops.append({"op": "put", "k": keys[which], "d": 1,
+                                    "v": which + 1 if again == "same" else 0 if again == "none" else 50})
+                        ops.append({"op": "put", "k": keys[m], "v": 99, "d": 1})
+                        ops += [{"op": "in", "k": k} for k in keys]
+                        if kind == "disk":
+                            ops.append({"op": "reopen", "max": m, "lsize": ls})
+                            ops += [{"op": "get", "k": k} for k in keys]
+                        jobs.append((cfg, ops))
     rtraces = run_many(jobs, gap)
     validate(ctx, rtraces, "random")
     for t in rtraces:
